@@ -253,10 +253,13 @@ func (c *Client) buildChannel(ctx context.Context) (*ClientChannel, error) {
 		c.config.Node.Instance,
 	)
 	if err != nil {
+		// The transport was opened here and nobody else knows about it
+		_ = transport.Close()
 		return nil, fmt.Errorf("buildChannel: %w", err)
 	}
 
 	if ses.State != SessionStateEstablished {
+		_ = transport.Close()
 		return nil, fmt.Errorf("buildChannel: channel state is %v", ses.State)
 	}
 
